@@ -1406,7 +1406,12 @@ def make_builtins(I):
             h = I.w.stubs.get("range")
             if h is not None:
                 return h(I, a)
-            raise EngineError("range() with symbolic bounds needs a loop invariant")
+            from .vals import SymRange
+            if len(a) == 1:
+                return SymRange(0, a[0])
+            if len(a) == 2:
+                return SymRange(a[0], a[1])
+            raise EngineError("range() with a symbolic step")
         if any(not isinstance(x, int) for x in a):
             I.raise_("TypeError", "range() integer argument expected")
         return range(*a)
